@@ -67,7 +67,7 @@ type witness struct {
 func TestCheck(t *testing.T) {
 	vkit.Run(t, "C19", "fault_enumeration", func(r *vkit.R) {
 		r.Rule("sequences: initial Load, then 3..12 of save (fresh object; Get + modify the returned object in place + Save of that pointer; modify an object handed to an earlier Save + Save it again) / delete / delete-upstream / flush / periodic tick / stop (a stop or flush that returns an error is called again up to 3 times, as the limiter does) over 1..3 upstreams of the store's shard and 1..2 of the other shard " +
-			"(3 condition names per upstream so that operations collide; saves of other-shard conditions handed to this store; saves through the other shard's own store), on top of 0..4 pre-existing conditions; in a third of the sequences the server that takes the shard over at the end gains the other shard first, during the history, and loads both through one client; " +
+			"(3 condition names per upstream so that operations collide; saves of other-shard conditions handed to this store; saves through the other shard's own store), on top of 0..4 pre-existing conditions; a quarter of the sequences run with 3..8 shards, one in 40 is a bulk sequence (20..60 persisted conditions of the shard, every API call of its flushes is a fault position, first-order faults only); in a third of the sequences the server that takes the shard over at the end gains the other shard first, during the history, and loads both through one client; " +
 			"both store modes (write-through = syncPeriod 0; periodic = syncPeriod 1h, flush goroutine replaced by explicit ticks). " +
 			"Each sequence runs once without fault to count its API calls c, then once for EVERY position p<=c and EVERY fault kind the API can produce for the verb at p: " +
 			"not-found (third party deleted the target), conflict (update/delete: version bumped; create: third party created first), transient 503 (no effect), lost response (effect + timeout), crash before, crash after. " +
@@ -88,7 +88,7 @@ func TestCheck(t *testing.T) {
 		hitVerbs := map[string]int{}
 		storePanics := map[string]int{}
 		storePanicSample := map[string]interface{}{}
-		var positions, maxCalls int
+		var positions, maxCalls, maxSeeds int
 		sampled := 0
 
 		r.Parallel(nSeq, 16, func(i int, g *vkit.Rand) {
@@ -96,7 +96,23 @@ func TestCheck(t *testing.T) {
 			if i%2 == 1 {
 				mode = "periodic"
 			}
-			seq := genSequence(g, mode)
+			// one sequence in 40 is a bulk one (20..60 persisted conditions of the shard, 3..8 shards, few operations)
+			bulk := i%40 == 39
+			if bulk {
+				mode = []string{"write-through", "periodic"}[(i/40)%2]
+			}
+			seq := genSequence(g, mode, bulk)
+			if seq.shards() > 2 {
+				r.Count("sequences_with_3_to_8_shards", 1)
+			}
+			if bulk {
+				r.Count("bulk_sequences", 1)
+				mu.Lock()
+				if n := len(seq.Seeds); n > maxSeeds {
+					maxSeeds = n
+				}
+				mu.Unlock()
+			}
 			base := execute(seq, nil, emulate)
 			if base.Harness != "" {
 				r.Inconclusive("harness: " + base.Harness + " in " + seq.String())
@@ -185,7 +201,7 @@ func TestCheck(t *testing.T) {
 					res := run([]fault{{p, k}}, "first_order")
 					// second order: a conflict on Update opens calls no fault-free run makes (Get of the latest version, the
 					// retried Update): every kind at each of the two calls that follow
-					if k == conflict && res != nil && res.HitVerb == "update" {
+					if k == conflict && res != nil && res.HitVerb == "update" && !bulk {
 						for d := 1; d <= 2; d++ {
 							for k2 := notFound; k2 < numFaultKinds; k2++ {
 								run([]fault{{p, conflict}, {p + d, k2}}, "second_order")
@@ -202,6 +218,9 @@ func TestCheck(t *testing.T) {
 		r.Set("fault_runs_by_kind_and_verb", hitVerbs)
 		r.Set("fault_positions", positions)
 		r.Set("max_api_calls_in_a_sequence", maxCalls)
+		r.Set("max_persisted_conditions_in_a_bulk_sequence", maxSeeds)
+		r.Require(r.Counter("sequences_with_3_to_8_shards") >= int64(r.N(25, 800)), "too few sequences with 3..8 shards")
+		r.Require(r.Counter("bulk_sequences") >= int64(r.N(4, 100)) && maxSeeds >= 30 && maxCalls >= 40, "bulk sequences (dozens of conditions per shard) hardly exercised")
 		r.Set("store_panics_under_non_crash_faults", storePanics)
 		if len(storePanicSample) > 0 {
 			r.Set("store_panic_example", storePanicSample)
